@@ -302,8 +302,41 @@ def _unfitted(r, case):
                 what = f'raised {res.name}' if isinstance(res, zoo.Raised) else f'returned {_sh(res)}'
                 r.violation(f'C19:unfitted:{label.split(":")[0]}:{q}:{res.name if isinstance(res, zoo.Raised) else "returned"}',
                             f'unfitted {label}.{q}(...) {what} instead of raising NotFittedError', case=case)
+    # a FRESH object whose first fit is refused has never been fitted: it still raises NotFittedError on every query (it
+    # must not answer from half-written state). Inputs: constants outside user bounds, NaN, +-inf, empty, text.
+    refusable = {'const-outside-bounds': np.full(30, 2500.0), 'const-below-bounds': np.full(12, -350.0),
+                 'nan': np.array([1.0, np.nan, 3.0, 2.0]), 'all-nan': np.full(6, np.nan), 'inf': np.array([1.0, np.inf, 3.0, 2.0]),
+                 'const-inf': np.full(5, np.inf), 'empty': np.array([], dtype=float), 'text': np.array(['a', 'b', 'c'], dtype=object),
+                 'const-text': np.array(['k', 'k', 'k'], dtype=object), 'one-value': np.array([4.2]), 'none': None}
+    n_refused = 0
+    uni_objs = [o for o in objs if o[0].startswith('uni:')]
+    for label, mk, queries in uni_objs:
+        for dname, data in refusable.items():
+            with warnings.catch_warnings():
+                warnings.simplefilter('ignore')
+                m = mk()
+                with np.errstate(all='ignore'):
+                    np.random.seed(5)
+                    res = zoo.attempt(m.fit, None if data is None else data.copy())
+            r.tr()
+            if not isinstance(res, zoo.Raised):
+                continue                     # the fit was accepted: the object is fitted, nothing to check here
+            n_refused += 1
+            for q, args in queries:
+                with warnings.catch_warnings():
+                    warnings.simplefilter('ignore')
+                    with np.errstate(all='ignore'):
+                        out = zoo.attempt(getattr(m, q), *args)
+                r.ev()
+                r.state(('refused-first-fit', label, dname, q))
+                if not (isinstance(out, zoo.Raised) and out.name == 'NotFittedError'):
+                    what = f'raised {out.name}' if isinstance(out, zoo.Raised) else f'returned {_sh(out)}'
+                    r.violation(f'C19:refused-first-fit:{label.split(":")[1]}:{q}:{out.name if isinstance(out, zoo.Raised) else "returned"}',
+                                f'fresh {label}: fit({dname}) raised {res.name} ({res.msg}); afterwards {q}(...) {what} instead of '
+                                f'raising NotFittedError', case=case)
+    engine.require(n_refused >= 20, f'only {n_refused} refused first fits')
     r.hit('unfitted')
-    r['sample'] = {'unfitted_objects': len(objs)}
+    r['sample'] = {'unfitted_objects': len(objs), 'refused_first_fits': n_refused}
     return r
 
 
@@ -417,8 +450,54 @@ def _get_instance(r, case):
         if before is not None and seq.key(p) != before:
             r.violation(f'C19:get_instance:{label}:prototype-modified', f'get_instance({label}) or fitting the clone modified the '
                         f'prototype', case=case)
+    # users of a prototype: several models configured with the SAME prototype object are independent of each other (each works
+    # on its own clone), for candidate lists of length 1 and 2 and for GaussianMultivariate columns
+    xa, xb = uni.dataset(('normal', 0.0, 1.0, 40)), uni.dataset(('gamma2', 50.0, 10.0, 90))
+    pts = np.array([-1.0, 0.0, 0.7, 40.0, 55.0, 70.0])
+
+    def watch(m):
+        return {q: zoo.attempt(lambda q=q: np.asarray(getattr(m, q)(pts.copy()))) for q in
+                ('probability_density', 'cumulative_distribution')} | {'to_dict': zoo.attempt(m.to_dict)}
+
+    makers = [('truncated(-500,900)', lambda: U.TruncatedGaussian(minimum=-500.0, maximum=900.0)),
+              ('kde(silverman)', lambda: U.GaussianKDE(bw_method='silverman')), ('gaussian', lambda: U.GaussianUnivariate()),
+              ('student_t', lambda: U.StudentTUnivariate())]
+    for plabel, mk in makers:
+        for extra in ((), (U.UniformUnivariate,)):
+            proto = mk()
+            before = seq.key(proto)
+            u1, u2 = U.Univariate(candidates=[proto, *extra]), U.Univariate(candidates=[proto, *extra])
+            fresh = U.Univariate(candidates=[mk(), *extra])
+            tag = f'two Univariate(candidates=[{plabel} instance{", UniformUnivariate" if extra else ""}]) sharing the prototype'
+            r.tr(3)
+            r.ev()
+            r.state(('shared-prototype', plabel, len(extra)))
+            with warnings.catch_warnings():
+                warnings.simplefilter('ignore')
+                np.random.seed(3)
+                e1 = zoo.attempt(u1.fit, xa.copy())
+                o1 = watch(u1)
+                np.random.seed(3)
+                e2 = zoo.attempt(u2.fit, xb.copy())
+                o1_after = watch(u1)
+                np.random.seed(3)
+                zoo.attempt(fresh.fit, xa.copy())
+                of = watch(fresh)
+            if isinstance(e1, zoo.Raised) or isinstance(e2, zoo.Raised):
+                r.violation(f'C19:shared-prototype:{plabel}:fit-raises', f'{tag}: fit raised '
+                            f'{e1 if isinstance(e1, zoo.Raised) else e2}', case=case)
+                continue
+            if not seq.values_equal(o1, o1_after):
+                r.violation(f'C19:shared-prototype:{plabel}:models-coupled', f'{tag}: the model fitted on data A changed when the '
+                            f'other was fitted on data B: {_diff(o1, o1_after)}', case=case)
+            elif not seq.values_equal(o1, of):
+                r.violation(f'C19:shared-prototype:{plabel}:differs-from-own-prototype', f'{tag}: the model fitted on A differs '
+                            f'from one built with its own prototype: {_diff(o1, of)}', case=case)
+            if seq.key(proto) != before or getattr(proto, 'fitted', False):
+                r.violation(f'C19:shared-prototype:{plabel}:prototype-modified', f'{tag}: fitting the models modified (or fitted) '
+                            f'the prototype object', case=case)
     r.hit('get_instance')
-    r['sample'] = {'prototype_forms': [p[0] for p in protos]}
+    r['sample'] = {'prototype_forms': [p[0] for p in protos], 'shared_prototypes': [m[0] for m in makers]}
     return r
 
 
